@@ -660,7 +660,11 @@ class LinkBench:
                     if stage == "ts1":
                         # our TS1 until we have received eight TS1 / TS2 from the DUT (and the extra groups are spent)
                         if (st["dts"][0] in ("ts1", "ts2") and st["dts"][1] >= 8 or ph == "TS2") and extra_ts1 <= 0:
-                            stage = "ts2"
+                            # (skip_ts2: an uncooperative partner that goes idle without ever sending TS2)
+                            stage = "idle" if opts.get("skip_ts2") and ph == "TS2" else \
+                                    "ts1" if opts.get("skip_ts2") else "ts2"
+                            if stage == "ts1":
+                                q_ts(opts.get("ts1_kind", "ts1"), 8)
                         else:
                             q_ts(opts.get("ts1_kind", "ts1"), 8)
                             if st["dts"][0] in ("ts1", "ts2") and st["dts"][1] >= 8 or ph == "TS2":
@@ -671,7 +675,7 @@ class LinkBench:
                             q_ts("ts2", 8, hot=1, nscr=nscr)
                             if st.get("phhot") and st["ph"] == "TS2":
                                 hot_left -= 1
-                        elif (dut_ts2 or ph == "LI") and sent_ts2 >= 2 and extra_ts2 <= 0 and not st.get("phhot_pending"):
+                        elif (dut_ts2 or ph == "LI") and sent_ts2 >= 2 and extra_ts2 <= 0 and not opts.get("never_idle"):
                             stage = "idle"
                         else:
                             q_ts("ts2", 8, nscr=nscr)
